@@ -47,3 +47,52 @@ def declare(E):
                    "min_padding_block": "result[4] < self._Packetizer__block_size_out + 4",
                },
                returns="bytes", modifies=[], raises={})
+
+
+def declare_send(E):
+    """send_message: what reaches the wire (ghost 'wire') for one message"""
+    E.declare_ghost(wire="bytes", last_packet_len="int")
+    # external collaborators (assumed contracts, DESIGN section 4)
+    E.contract("CipherCtx.update", argnames=["self", "data"], returns="bytes",
+               ensures=["len(result) == len(data)"])
+    E.contract("CipherCtx.encrypt", argnames=["self", "iv", "data", "aad"], returns="bytes",
+               ensures=["len(result) == len(data) + 16"])
+    E.opaque_contracts["Compressor"] = dict(argnames=["self", "data"], returns="bytes", ensures=["len(result) >= 1"])
+    E.contract("paramiko.packet.compute_hmac", params={"key": "bytes", "message": "bytes", "digest_class": "opaque:HashCtor"},
+               returns="bytes",
+               ensures=["len(result) == fn('digest_size', 'int', digest_class)",
+                        "result == fn('hmac', 'bytes', key, message, digest_class)"])
+    E.contract("paramiko.util.format_binary", returns="opaque:Lines")
+    E.contract(P + "_inc_iv_counter", returns="bytes", requires=["len(iv) == 12"], ensures=["len(result) == 12"])
+    E.contract(P + "write_all", returns="none",
+               ghost={"wire": "ghost('wire') + out"},
+               raises={"EOFError": "True", "OSError": "True"})
+    E.contract(P + "_trigger_rekey", inline=True)
+    E.contract(P + "send_message",
+               params={"data": "obj:Message"},
+               requires={
+                   "nonempty": "len(data.packet.getvalue()) >= 1",
+                   "fits": "len(data.packet.getvalue()) < 2**32 - 300",
+                   "bsize_range": "8 <= self._Packetizer__block_size_out <= 252",
+                   "mac_size_le_digest": "implies(notnone(self._Packetizer__block_engine_out) and not self._Packetizer__aead_out,"
+                                         " notnone(self._Packetizer__mac_engine_out) and 0 <= self._Packetizer__mac_size_out"
+                                         " and self._Packetizer__mac_size_out <= fn('digest_size', 'int', self._Packetizer__mac_engine_out))",
+                   "aead_iv": "implies(self._Packetizer__aead_out, notnone(self._Packetizer__iv_out) and len(self._Packetizer__iv_out) == 12"
+                              " and self._Packetizer__mac_size_out == 16 and notnone(self._Packetizer__block_engine_out))",
+                   "no_compression": "isnone(self._Packetizer__compress_engine_out)",
+                   "modes_exclusive": "not (self._Packetizer__etm_out and self._Packetizer__aead_out)",
+               },
+               ensures={
+                   # bytes put on the wire by this call
+                   "mac_or_tag_length": "len(ghost('wire')) - len(old(ghost('wire'))) == ghost('last_packet_len')"
+                                        " + (old(self._Packetizer__mac_size_out) if notnone(old(self._Packetizer__block_engine_out)) else 0)",
+                   "seqno_incremented": "self._Packetizer__sequence_number_out == (old(self._Packetizer__sequence_number_out) + 1) % 2**32",
+               },
+               returns="none",
+               raises={"EOFError": "True", "OSError": "True",
+                       "SSHException": "not self._initial_kex_done and old(self._Packetizer__sequence_number_out) == 2**32 - 1"})
+    # _build_packet as a callee also records the plaintext packet length in ghost state
+    c = E.contracts[P + "_build_packet"]
+    c["ghost"] = {"last_packet_len": "len(result)"}
+    # callers need lengths and layout, not the (nonlinear) block arithmetic
+    c["caller_ensures"] = ["padding_4_255", "length_field", "total_length", "payload_intact"]
